@@ -1,6 +1,6 @@
 (* ExecC16.v — executable entry points of the C16 correspondence check. *)
 From Coq Require Import List NArith Bool.
-From Connect Require Export Interceptors.
+From Connect Require Export Interceptors Recover.
 From Connect Require Export ExecBase.
 Import ListNotations.
 Local Open Scope N_scope.
@@ -14,11 +14,21 @@ Fixpoint listN_eqb (a b : list N) : bool :=
 
 (* forest of option values over interceptor ids, and the order in which the
    instrumented interceptors were entered during a real call *)
-Inductive c16case := IcptCase (ts : list (opt N)) (obs : list N).
+Inductive c16case :=
+| IcptCase (ts : list (opt N)) (obs : list N)
+(* handler options in declaration order: plain interceptors, one that panics, WithRecover;
+   the handler function panics too when [core_panics]; observed: calls of the recovery
+   function and whether the panic escaped ServeHTTP *)
+| RecPosCase (ics : list (icpt unit)) (core_panics : bool) (handled : N) (escaped : bool).
 
 (* the model of the code: run chainWith/newChain over the forest and read off
    the nesting of the resulting Interceptor value (outermost first) *)
 Definition c16_ok (c : c16case) : bool :=
   match c with
   | IcptCase ts obs => listN_eqb (sem_cfg N (apply_all N ts None)) obs
+  | RecPosCase ics core_panics handled escaped =>
+    let core : hout unit bool := if core_panics then Panics (PVal tt) else Returns true in
+    let '(o, calls) := run_chain unit bool (fun _ => false) ics core in
+    (N.of_nat (length calls) =? handled) &&
+    Bool.eqb (match o with Panics _ => true | Returns _ => false end) escaped
   end.
